@@ -160,12 +160,10 @@ _DIAG = {}
 
 
 def diag(geo, t_int, x_int, res='fine'):
-    """exact diagonal entry D_e; depends on the element only through (h_t, h_x) on straight sides and the circle"""
+    """exact diagonal entry D_e; depends on the element only through (h_t, h_x) and the curvature of its piece"""
     ht = t_int[1] - t_int[0]
     hx = x_int[1] - x_int[0]
-    key = (geo.name if geo.name != 'poly' else 'straight', 'circle' if geo.circle else 'straight', res,
-           float(ht).hex(), float(hx).hex())
-    key = key[1:]
+    key = (geo.kind(geo.side_of(*x_int)), res, float(ht).hex(), float(hx).hex())
     if key not in _DIAG:
         _DIAG[key] = bilform(geo, t_int, x_int, t_int, x_int, res)
     return _DIAG[key]
